@@ -291,6 +291,7 @@ type Run struct {
 	fatal  string
 	knownExcl map[string]Term
 	errGlobals []Term
+	abTags     map[string]int
 	ifaceSpec *FuncSpec
 	conds     []Term
 	condMark  []int
